@@ -27,6 +27,10 @@ struct Opts {
 struct Case {
     src: ArchiveSpec,
     opts: Opts,
+    /// the source's `(listfile)` is a user-supplied one (ListfileOption::External) that lists
+    /// every file but — like Blizzard's own archives — not itself
+    #[serde(default)]
+    ext_listfile: bool,
 }
 
 fn fv(v: u8) -> FormatVersion {
@@ -114,7 +118,16 @@ fn check_case(check: &Check, case: &Case, origin: &str) -> CaseResult {
     let dir = engine::scratch("c07");
     let src = dir.path().join("src.mpq");
     let dst = dir.path().join("dst.mpq");
-    if engine::guard("build", || spec.builder().build(&src))?.is_err() {
+    let ext = case.ext_listfile && spec.listfile;
+    let builder = if ext {
+        let lf = dir.path().join("names.txt");
+        let text: String = spec.files.iter().map(|f| format!("{}\r\n", f.name)).collect();
+        std::fs::write(&lf, text).map_err(|e| engine::Fail::new("harness:io", e.to_string()))?;
+        spec.builder().listfile_option(wow_mpq::ListfileOption::External(lf))
+    } else {
+        spec.builder()
+    };
+    if engine::guard("build", || builder.build(&src))?.is_err() {
         check.bump("discard_source_build_err", 1);
         return Ok(());
     }
@@ -142,10 +155,11 @@ fn check_case(check: &Check, case: &Case, origin: &str) -> CaseResult {
     let any_multi = spec.files.iter().enumerate().any(|(i, _)| spec.content(i).len() > sector);
     let tgt_v = o.target.unwrap_or(if o.preserve_format { spec.version } else { 4 });
     let class = format!(
-        "{origin}:V{}→V{}:lf{}:at{}:enc{}:multi{}:oc{:?}:obs{}:skipenc{}:verify{}:lo{}",
+        "{origin}:V{}→V{}:lf{}{}:at{}:enc{}:multi{}:oc{:?}:obs{}:skipenc{}:verify{}:lo{}",
         spec.version,
         tgt_v,
         spec.listfile as u8,
+        if ext { "x" } else { "" },
         spec.has_attributes() as u8,
         any_enc as u8,
         any_multi as u8,
@@ -182,6 +196,7 @@ fn check_case(check: &Check, case: &Case, origin: &str) -> CaseResult {
     // expected set
     let mut expected: Vec<(String, Vec<u8>)> = vec![];
     let mut n_listed = 0usize;
+    let mut src_listed: Option<BTreeSet<String>> = None;
     if spec.listfile {
         for (i, f) in spec.files.iter().enumerate() {
             n_listed += 1;
@@ -191,6 +206,15 @@ fn check_case(check: &Check, case: &Case, origin: &str) -> CaseResult {
             expected.push((f.name.replace('/', "\\"), spec.content(i)));
         }
         n_listed += 1 + spec.has_attributes() as usize;
+        if ext {
+            // what the source lists is taken from the read-only API (whether special files
+            // that are not named in a user-supplied listfile are listed is not this check's business)
+            let mut a = Archive::open(&src).map_err(|e| engine::Fail::new("harness:source-reopen", e.to_string()))?;
+            let l = a.list().map_err(|e| engine::Fail::new("harness:source-list", e.to_string()))?;
+            n_listed = l.len();
+            src_listed = Some(l.into_iter().map(|e| e.name.to_ascii_uppercase().replace('/', "\\")).collect());
+            check.bump("source_with_external_listfile", 1);
+        }
     }
     if summary.extracted_files + summary.skipped_files != summary.source_files {
         vfail!(
@@ -278,6 +302,18 @@ fn check_case(check: &Check, case: &Case, origin: &str) -> CaseResult {
             );
         }
     }
+    // … and nothing missing from the listing: the target *contains the source's listed files*, by name
+    let listed_names: BTreeSet<String> = listed.iter().map(|e| e.name.to_ascii_uppercase()).collect();
+    for n in &exp_names {
+        if !listed_names.contains(n) {
+            vfail!(
+                format!("rebuilt-archive-listing-misses-file:{tables}"),
+                "{n:?} is listed by the source and readable from the target, but the target's listing does not name it (target lists {} entries) — opts {o:?} — {}",
+                listed.len(),
+                spec.summary()
+            );
+        }
+    }
     if o.skip_encrypted {
         for f in spec.files.iter().filter(|f| f.enc != Enc::None) {
             if matches!(t.find_file(&f.name), Ok(Some(_))) {
@@ -294,7 +330,12 @@ fn check_case(check: &Check, case: &Case, origin: &str) -> CaseResult {
             spec.summary()
         );
     }
-    let present_in_target = listed.len();
+    // files carried over = target entries the source lists too (a target-side generated
+    // `(listfile)` of a source whose own listfile does not name itself was not "extracted")
+    let present_in_target = match &src_listed {
+        Some(sl) => listed.iter().filter(|e| sl.contains(&e.name.to_ascii_uppercase().replace('/', "\\"))).count(),
+        None => listed.len(),
+    };
     if summary.extracted_files != present_in_target {
         vfail!(
             format!("summary-extracted-count-wrong:{tables}"),
@@ -409,7 +450,13 @@ fn grid() -> Vec<Case> {
                     v.push(Case {
                         src: ArchiveSpec { version: sv, shift: 0, crcs: false, attrs: if sv % 2 == 0 { Attrs::Crc32 } else { Attrs::None }, listfile, compress_tables: false, table_method: M_ZLIB, files },
                         opts: Opts { target: Some(tv), preserve_format: false, override_compression: None, override_block_size: None, skip_encrypted: false, skip_signatures: true, verify, preserve_order: true, list_only: false },
+                        ext_listfile: false,
                     });
+                    if listfile && !verify {
+                        let mut c = v.last().unwrap().clone();
+                        c.ext_listfile = true;
+                        v.push(c);
+                    }
                 }
             }
         }
@@ -453,7 +500,7 @@ fn main() {
         "c07",
         n,
         pt::Opts::default(),
-        || (archive_strategy(src_params()), opts_strategy()).prop_map(|(src, opts)| Case { src, opts }),
+        || (archive_strategy(src_params()), opts_strategy(), prop_oneof![3 => Just(false), 1 => Just(true)]).prop_map(|(src, opts, ext_listfile)| Case { src, opts, ext_listfile }),
         |c| serde_json::to_value(c).unwrap(),
         |c| check_case(&check, c, "rnd"),
     );
